@@ -410,6 +410,9 @@ def bounds1d (lo hi : K) (sizes : List Nat) : List (K × K) :=
 def cellCoord (a b : K) (n p : Nat) : K :=
   a + ((p : K) + ((1:Nat) : K) / ((2:Nat) : K)) * ((b - a) / (n : K))
 
+/-- lower edge of cell `p` of a uniform axis `(a, b)` with `n` cells (`p = n`: the upper bound) -/
+def cellEdge (a b : K) (n p : Nat) : K := a + (p : K) * ((b - a) / (n : K))
+
 /-- bounds of the sub-grid with node index `idx`, axis by axis -/
 def subBounds : List (K × K) → List (List Nat) → List Nat → List (K × K)
   | (lo, hi) :: bs, sizes :: ax, i :: is => (bounds1d lo hi sizes).getD i (lo, hi) :: subBounds bs ax is
@@ -434,6 +437,16 @@ def volCoef (kind : GridKind) (b : List (K × K)) : K :=
   | .polar, [(r0, r1)] => r1 * r1 - r0 * r0
   | .cylindrical, [(r0, r1), (z0, z1)] => (r1 * r1 - r0 * r0) * (z1 - z0)
   | _, _ => ((0:Nat) : K)
+end
+
+section
+variable {K : Type} [Sub K] [Mul K] [NatCast K]
+/-- volume of a grid whose volume element is a product of one-axis measures with antiderivatives
+`Fs` (up to the constant of the class): Cartesian `F = id` on every axis, polar `[r^2]`, spherical
+`[r^3]`, cylindrical `[r^2, id]` -/
+def volGen : List (K → K) → List (K × K) → K
+  | F :: Fs, p :: ps => (F p.2 - F p.1) * volGen Fs ps
+  | _, _ => ((1:Nat) : K)
 end
 
 inductive Outcome where
